@@ -58,7 +58,9 @@ def main():
         sys.exit(2)
     report = {"seed": seed, "property": prop}
     try:
-        demo = os.path.join(wt, "demo_%s.py" % tag)
+        # keep the layout the demo was written for: <worktree>/seed/<n>/demo.py
+        os.makedirs(os.path.join(wt, "seed", n), exist_ok=True)
+        demo = os.path.join(wt, "seed", n, "demo.py")
         shutil.copy(os.path.join(seed, "demo.py"), demo)
         rc0, out0 = run_demo(wt, demo)
         report["demo_clean_rc"] = rc0
